@@ -259,9 +259,9 @@ func genStackTyped(g *tr.G, emit func(kind string, ops []string, tags ...string)
 			}
 			// every history over the alphabet to a depth
 			alpha := []string{"push:1", second, "pop", "clear", "slice", "peek:0"}
-			depth := g.Scale(3, 5)
+			depth := g.Scale(3, 4)
 			if c == 'z' {
-				depth = g.Scale(4, 6)
+				depth = g.Scale(4, 5)
 			}
 			var rec func(cur []string, d int)
 			rec = func(cur []string, d int) {
@@ -286,7 +286,7 @@ func genStackTyped(g *tr.G, emit func(kind string, ops []string, tags ...string)
 			if t == 'o' {
 				maxCode = 1
 			}
-			for i := 0; i < g.Scale(60, 1500); i++ {
+			for i := 0; i < g.Scale(60, 400); i++ {
 				n := r.Range(3, 30)
 				ops := make([]string, 0, n)
 				for len(ops) < n {
@@ -335,7 +335,7 @@ func genStackTyped(g *tr.G, emit func(kind string, ops []string, tags ...string)
 		// (the model replays a stack op in time linear in the size: the quiet histories of 1025
 		// elements go to three of the nine types per seed in the quick tier)
 		for i, n := range []int{1025, 2049} {
-			if g.Thorough() || i == 0 && (ti+int(g.Seed))%3 == 0 {
+			if g.Thorough() && (i == 0 || (ti+int(g.Seed))%3 == 0) || i == 0 && (ti+int(g.Seed))%3 == 0 {
 				emit("S"+string(t)+string("nz"[i%2]), lifoFifoScale(n, false, -1, "pushn", "addn", kn, true), "typed-scale-light")
 			}
 		}
@@ -346,8 +346,9 @@ func genStackTyped(g *tr.G, emit func(kind string, ops []string, tags ...string)
 	big := scaleKnobs{obsMax: 1 << 20, probeMax: 1 << 20}
 	exact := []int{32767, 32768, 32769, 65535, 65536, 65537}
 	if !g.Thorough() {
-		emit("SIn", lifoFifoScale(exact[int(g.Seed)%6], false, 1, "pushn", "addn", big, true), "exact-large")
-		emit("SBz", lifoFifoScale(exact[(int(g.Seed)+3)%6], false, -1, "addn", "pushn", big, false), "exact-large")
+		// more than 2^16 elements always, one of the other five sizes by seed
+		emit("SIn", lifoFifoScale(65537, false, 1, "pushn", "addn", big, true), "exact-large")
+		emit("SBz", lifoFifoScale(exact[int(g.Seed)%5], false, -1, "addn", "pushn", big, false), "exact-large")
 		return
 	}
 	for i, n := range exact {
